@@ -43,8 +43,9 @@ pub fn generate(seed: u64, tier: Tier) -> Plan {
     let mut knobs = Knobs::default();
     knobs.max_connections = *rng.pick(&[2usize, 3, 5, 8, 16, 64]);
     knobs.accept_queue_timeout = *rng.pick(&[2u32, 5, 60]);
-    knobs.front_timeout = *rng.pick(&[5u32, 20]);
-    knobs.back_timeout = *rng.pick(&[2u32, 10]);
+    // beyond one revolution of the timer wheel (25.6 s) as well
+    knobs.front_timeout = *rng.pick(&[5u32, 20, 30, 60]);
+    knobs.back_timeout = *rng.pick(&[2u32, 10, 30]);
     knobs.request_timeout = *rng.pick(&[2u32, 5]);
     knobs.connect_timeout = *rng.pick(&[1u32, 3]);
     knobs.max_buffers = *rng.pick(&[1000u64, 200, 40]);
@@ -100,7 +101,9 @@ pub fn generate(seed: u64, tier: Tier) -> Plan {
             abort,
             sndbuf: None,
             think_ns: rng.below(2) * rng.below(20 * MS),
-            linger_ns: if rng.below(4) == 0 { rng.below((knobs.front_timeout as u64 + 2) * SEC) } else { 0 },
+            // a quarter of the clients stay connected and silent after their last response: for a random time, or until
+            // sozu reclaims the idle session (front_timeout) - the client itself would only leave 4 s later
+            linger_ns: match rng.below(8) { 0 => rng.below((knobs.front_timeout as u64 + 2) * SEC), 1 => (knobs.front_timeout as u64 + 4) * SEC, _ => 0 },
             give_up_ns: (wait + 10) * SEC,
             wait_board: None,
         });
@@ -220,7 +223,30 @@ pub fn footprint(f: &FootprintObs) -> Vec<Violation> {
     v
 }
 
+/// "idle or stuck sessions are reclaimed within their timeouts": a client that got all its answers and then stays
+/// connected and silent for front_timeout + 4 s must see sozu close the connection before it leaves by itself.
+fn idle_reclaim(p: &Plan, o: &HttpOutcome) -> Vec<Violation> {
+    let mut v = Vec::new();
+    let ft = p.http.knobs.front_timeout as u64;
+    for (ci, c) in p.http.clients.iter().enumerate() {
+        if c.linger_ns < (ft + 3) * SEC || c.abort.is_some() { continue; }
+        let Some(oc) = o.clients.get(ci) else { continue };
+        let served = oc.rec.connect_err.is_none() && oc.responses.len() == c.requests.len() && oc.responses.iter().all(|m| m.complete) && oc.partial.is_none() && oc.rec.parse_error.is_none();
+        if !served { continue; }
+        if oc.rec.t_close_seen == 0 {
+            v.push(Violation::new("idle_session_not_reclaimed", format!("front_timeout={}", if ft * 10 > 256 { "beyond_one_wheel_revolution" } else { "within_one_wheel_revolution" }), format!("client {} stayed idle for {} s after its last response (front_timeout {} s) and sozu never closed the connection", c.name, c.linger_ns / SEC, ft)));
+        }
+    }
+    v
+}
+
 pub fn oracle(p: &Plan, o: &HttpOutcome) -> Vec<Violation> {
+    let mut v = idle_reclaim(p, o);
+    v.extend(footprint_of(p, o));
+    v
+}
+
+fn footprint_of(p: &Plan, o: &HttpOutcome) -> Vec<Violation> {
     footprint(&FootprintObs {
         panicked: &o.panicked, aborted: &o.aborted, max_served: o.max_served, max_connections: p.http.knobs.max_connections, board: &o.board, responses: &o.responses, settle_s: p.settle_s,
         probe: o.clients.last().unwrap(), probe_id: p.http.clients.last().unwrap().requests[0].id, probe_len: 1234,
@@ -319,6 +345,10 @@ impl Property for C16 {
         rep.probes.insert("queued_beyond_limit".into(), (o.max_open_accepted > p.http.knobs.max_connections) as u64);
         rep.probes.insert("clients_closed_by_sozu".into(), o.clients.iter().filter(|c| c.rec.eof).count() as u64);
         rep.probes.insert("clients_gave_up".into(), o.clients.iter().filter(|c| c.rec.gave_up).count() as u64);
+        let ft = p.http.knobs.front_timeout as u64;
+        let idle: Vec<usize> = p.http.clients.iter().enumerate().filter(|(_, c)| c.linger_ns >= (ft + 3) * SEC && c.abort.is_none()).map(|(i, _)| i).collect();
+        rep.probes.insert("idle_clients_reclaimed_by_front_timeout".into(), idle.iter().filter(|i| o.clients.get(**i).map(|c| c.rec.t_close_seen > 0 && c.responses.len() == p.http.clients[**i].requests.len()).unwrap_or(false)).count() as u64);
+        if ft * 10 > 256 { rep.probes.insert("idle_clients_front_timeout_beyond_one_wheel_revolution".into(), idle.len() as u64); }
         rep.probes.insert("proxy_answers".into(), o.clients.iter().flat_map(|c| c.responses.iter()).filter(|m| m.sim_id.is_none()).count() as u64);
         if let Some(e) = o.boot_error { rep.harness_error = Some(format!("worker boot failed: {e}")); }
         rep
